@@ -380,7 +380,7 @@ func (cx *Ctx) classifyMapRange(f *ssa.Function, rg *ssa.Range) *mapRange {
 						events++
 						continue
 					}
-					if k == "store.set" && cx.classifyCall(x) == "store.set" && derivesFrom(x.Common().Args[0], keyVals, 0, map[ssa.Value]bool{}) {
+					if k == "store.set" && cx.classifyCall(x) == "store.set" && derivesFrom(storeArgs(x)[0], keyVals, 0, map[ssa.Value]bool{}) {
 						mr.features = append(mr.features, "store write keyed by the range key")
 						continue
 					}
